@@ -11,6 +11,7 @@ def handleCase (mode : String) (id : Nat) (hdr body : List Sexp) : String :=
   | "core" => Drv.Core.handle id hdr body
   | "tools" => Drv.Tools.handle id hdr body
   | "core20" => Drv.Core.handle20 id hdr body
+  | "coreinv" => Drv.Core.handleInv id hdr body
   | "chain" =>
     -- a chain of n tasks, far deeper than the interpreter's recursion limit: value n, one flush iff the leaf awaits an item
     match hdr, body with
